@@ -116,8 +116,8 @@ class C2Beacon(AbstractC2, discriminator="c2-beacon"):
             c2_remote_ip = request[-1].get("c2_server_ip_address")
             if c2_remote_ip is None:
                 self.sys_log.error(f"{self.name}: Did not receive C2 Server IP in configuration parameters.")
-                RequestResponse(
-                    status="failure", data={"No C2 Server IP given to C2 beacon. Unable to configure C2 Beacon"}
+                return RequestResponse(
+                    status="failure", data={"reason": "No C2 Server IP given to C2 beacon. Unable to configure C2 Beacon"}
                 )
 
             c2_remote_ip = IPv4Address(c2_remote_ip)
